@@ -156,10 +156,95 @@ def abs_target_program(rng):
     return [{'k': 'const', 'name': 'TABS', 'value': T, 'text': rng.choice([str, hex])(T)}] + pre + [x, {'k': 'pseudo', 'm': 'ret', 'ops': []}]
 
 
+PIN_X = ['beq', 'bne', 'blt', 'bgeu', 'jal0', 'jal1', 'j', 'beqz', 'bnez', 'diff']
+PIN_P = ['align4', 'align8', 'align16', 'align32', 'const', 'ext']
+PIN_S = [{'k': 'inst', 'm': 'addi', 'ops': [{'r': 8}, {'r': 8}, {'i': 1}]}, {'k': 'pseudo', 'm': 'li', 'ops': [{'r': 9}, {'i': 5}]},
+         {'k': 'inst', 'm': 'and', 'ops': [{'r': 8}, {'r': 8}, {'r': 9}]}, {'k': 'pseudo', 'm': 'mv', 'ops': [{'r': 10}, {'r': 11}]},
+         {'k': 'inst', 'm': 'lw', 'ops': [{'r': 8}, {'r': 2}, {'i': 8}]}]
+
+
+def pinned_program(case):
+    """KNOWN FINDING `pinned-target` (DESIGN.md section 7): a transfer (or a label difference) at the very edge of what its 32-bit
+    encoding holds, whose far end does not move when the code shrinks - it sits behind an `align`, or it is an absolute address (a
+    constant or a caller-supplied symbol) - and ONE compressible instruction in front of it.  Without -c the operand is exactly the
+    largest representable value; with -c the near end moves 2 bytes towards the start, the far end stays, the operand grows by 2.
+    -> {'items', 'ext', 'user': index of the item whose operand grows, 'grows': what the layout arithmetic below predicts}"""
+    k = case['idx']
+    x = PIN_X[k % len(PIN_X)]
+    pin = PIN_P[(k // len(PIN_X)) % len(PIN_P)]
+    shr = PIN_S[(k // (len(PIN_X) * len(PIN_P))) % len(PIN_S)]
+    lead = (k // 7) % 3                                        # incompressible instructions in front (each 4 bytes in both modes)
+    reach = {'jal0': (1 << 20) - 2, 'jal1': (1 << 20) - 2, 'j': (1 << 20) - 2, 'diff': 2046}.get(x, 4094)
+    n = {'align4': 4, 'align8': 8, 'align16': 16, 'align32': 32}.get(pin)
+    keep = {'k': 'inst', 'm': 'lui', 'ops': [{'r': 5}, {'i': 0x12345}]}      # never compressed: the immediate is outside c.lui
+    t = {'t': 'T'}
+    r = {'r': 8 + k % 8}
+    xfer = {'beq': {'k': 'inst', 'm': 'beq', 'ops': [r, {'r': 0}, t]}, 'bne': {'k': 'inst', 'm': 'bne', 'ops': [r, {'r': 5}, t]},
+            'blt': {'k': 'inst', 'm': 'blt', 'ops': [r, {'r': 6}, t]}, 'bgeu': {'k': 'inst', 'm': 'bgeu', 'ops': [r, {'r': 0}, t]},
+            'jal0': {'k': 'inst', 'm': 'jal', 'ops': [{'r': 0}, t]}, 'jal1': {'k': 'inst', 'm': 'jal', 'ops': [{'r': 1}, t]},
+            'j': {'k': 'pseudo', 'm': 'j', 'ops': [t]}, 'beqz': {'k': 'pseudo', 'm': 'beqz', 'ops': [r, t]},
+            'bnez': {'k': 'pseudo', 'm': 'bnez', 'ops': [r, t]},
+            'diff': {'k': 'inst', 'm': 'addi', 'ops': [{'r': 5}, {'r': 6}, {'diff': ['T', 'M']}]}}[x]
+    if x == 'diff' and n is None:
+        pin, n = 'align8', 8                                      # a label difference has no absolute far end
+    head = [dict(keep) for _ in range(lead)] + [dict(shr)]
+    at = 4 * lead + 4                                             # offset of the near end (the transfer, or M) without -c
+    if x == 'diff':
+        # M is the near end; the user of the difference sits behind T so that nothing between M and T depends on it
+        head += [{'k': 'label', 'name': 'M'}, dict(keep)]
+    else:
+        head += [xfer]
+    far = at + reach
+    if n is None:
+        items = head + [dict(keep), {'k': 'pseudo', 'm': 'ret', 'ops': []}]
+        if pin == 'const':
+            items.insert(0, {'k': 'const', 'name': 'T', 'value': far, 'text': str(far)})
+        return {'items': items, 'ext': {'T': far} if pin == 'ext' else None, 'user': items.index(xfer), 'grows': 2, 'sub': x + '/' + pin}
+    # behind an align: fill so that T = far, which must be a multiple of n
+    while far % n:
+        head.insert(0, {'k': 'raw', 'text': 'c.nop'})
+        at += 2
+        far += 2
+    pad = (k // 11) % 2 * 2                                       # the align pads 0 or 2 bytes without -c
+    fill = far - pad - (at + 4)
+    items = head + [{'k': 'gap', 'n': fill}, {'k': 'align', 'n': n}, {'k': 'label', 'name': 'T'}, {'k': 'pseudo', 'm': 'nop', 'ops': []}]
+    if x == 'diff':
+        items.append(xfer)
+    end_c = far - pad - 2                                         # where the fill ends once the one compressible instruction is 2 bytes
+    far_c = -(-end_c // n) * n
+    return {'items': items, 'ext': None, 'user': items.index(xfer), 'grows': (far_c - (at - 2)) - reach, 'sub': x + '/' + pin}
+
+
+ODD_X = [('j', 2), ('jal', 2), ('call', 2), ('tail', 2), ('beqz x8,', 2), ('bnez x9,', 2), ('jal x0,', 2), ('beq x8, x0,', 2)]
+ODD_T = [(['db 1'], 1, [3]), (['db 1'], 1, [3, 3]), (['db 1'], 1, [3, 5]), (['bytes 1 2 3'], 3, [5]), (['db 7', 'db 8', 'db 9'], 3, [5]),
+         (['string abcde'], 5, [6])]
+
+
+def oddpin_program(case):
+    """second shape of the same finding: behind odd-sized data an odd `align` happens to put the target on an even address in the
+    uncompressed layout; when the transfer in front is compressed the target lands on an odd one."""
+    k = case['idx']
+    x, csize = ODD_X[k % len(ODD_X)]
+    data, dlen, aligns = ODD_T[(k // len(ODD_X)) % len(ODD_T)]
+    lines = ['%s L' % x] + data + ['align %d' % a for a in aligns] + ['L:']
+
+    def lay(first):
+        p = first + dlen
+        for a in aligns:
+            p = -(-p // a) * a
+        return p
+    return {'items': [{'k': 'raw', 'text': ln} for ln in lines], 'ext': None, 'user': 0,
+            'grows': 1 if lay(csize) % 2 else 0, 'sub': x.split()[0] + '/odd-align'}
+
+
 def make(case, asm=None):
     rng = random.Random('c12-%s-%d-%d' % (case['kind'], case['seed'], case['idx']))
     if case['kind'] == 'dist':
         return dist_program(asm, case)
+    if case['kind'] == 'pinned':
+        return pinned_program(case)['items']
+    if case['kind'] == 'oddpin':
+        return oddpin_program(case)['items']
     if case['kind'] == 'edge':
         items = edge_program(rng)
         if rng.random() < 0.3:
@@ -187,7 +272,41 @@ def interesting(items):
     return False
 
 
+def run_pinned(asm, acc, case):
+    """the family of the known finding `pinned-target`: a refusal under -c is only attributed to it if the layout arithmetic of the
+    generator predicts that the operand leaves its range and the refusal names the line that holds that operand"""
+    pp = pinned_program(case) if case['kind'] == 'pinned' else oddpin_program(case)
+    lines = P.render(pp['items'])
+    src = '\n'.join(lines) + '\n'
+    acc['n'] += 1
+    mk = lambda: None if pp['ext'] is None else {'labels': dict(pp['ext'])}  # noqa
+    u = monitors.observe(asm, src, False, tap=False, preseed=mk())
+    if not u.ok:
+        acc['ctr']['refused_uncompressed'] += 1
+        acc['ctr']['pinned_refused_uncompressed'] += 1
+        return
+    acc['ctr']['accepted_uncompressed'] += 1
+    acc['ntkeys'].add(core.ckey(src))
+    core.see(acc, 'pinned_shapes', pp['sub'])
+    c = monitors.observe(asm, src, True, tap=False, preseed=mk())
+    if c.ok:
+        acc['ctr']['accepted_both'] += 1
+        acc['ctr']['pinned_accepted_with_compression' if pp['grows'] > 0 else 'pinned_no_growth_accepted'] += 1
+        if len(c.out) < len(u.out):
+            acc['ctr']['compression_happened'] += 1
+        return
+    where = c.exc.get('number')
+    predicted = pp['grows'] > 0 and c.exc['type'] == 'AssemblerError' and where == pp['user'] + 1
+    acc['ctr']['pinned_refused_with_compression_as_predicted' if predicted else 'pinned_refused_with_compression_otherwise'] += 1
+    core.add_viol(acc, 'program assembles without compression (%d bytes) but fails with it: %s: %s (line %s: %r)%s' % (
+        len(u.out), c.exc['type'], c.exc['msg'], where, lines[where - 1][:60] if where and 0 < where <= len(lines) else None,
+        ' [far end pinned by %s, operand grows by %d]' % (pp['sub'], pp['grows']) if predicted else ''),
+        case, {'lines': [ln[:100] for ln in lines[:12]]}, key='pinned-target' if predicted else None)
+
+
 def run_case(asm, acc, case):
+    if case['kind'] in ('pinned', 'oddpin'):
+        return run_pinned(asm, acc, case)
     items = make(case, asm)
     lines = P.render(items)
     src = '\n'.join(lines) + '\n'
@@ -247,7 +366,8 @@ def run_shard(sh, deadline):
 
 
 def plan(tier, seed):
-    n = {'rand': 3000, 'edge': 2500, 'shift': 500, 'dist': 1200, 'abs': 1500} if tier == 'quick' else {'rand': 120000, 'edge': 70000, 'shift': 10000, 'dist': 24000, 'abs': 60000}
+    n = ({'rand': 3000, 'edge': 2500, 'shift': 500, 'dist': 1200, 'abs': 1500, 'pinned': 300, 'oddpin': 48} if tier == 'quick' else
+         {'rand': 120000, 'edge': 70000, 'shift': 10000, 'dist': 24000, 'abs': 60000, 'pinned': 1800, 'oddpin': 48})
     cases = [{'kind': k, 'seed': seed, 'idx': i} for k, cnt in n.items() for i in range(cnt)]
     nsh = 64 if tier == 'quick' else 512
     shards = [{'cases': cases[i::nsh]} for i in range(nsh)]
